@@ -660,6 +660,7 @@ def run(ctx):
     n_contract = 0
     n_qn2 = 0
     n_zero = 0
+    hist = {}
     for rc, res, out in ro:
         if res is None:
             or_crash.append((out or "")[-1200:])
@@ -667,11 +668,15 @@ def run(ctx):
         n_contract += res.get("contract_checks", 0)
         n_qn2 += res.get("qn2_specs_run", 0)
         n_zero += res.get("zero_result_skips", 0)
+        for k_, v_ in (res.get("history") or {}).items():
+            hist[k_] = hist.get(k_, 0) + v_
         or_checked += res["checked"]
         or_specs += res["specs_run"]
         or_skipped += len(res["skipped"])
         or_fail += res["failures"]
     ctx.notes.append("oracle: %d specs with two-component quantum numbers ran (expectation, norm, normalize, RDMs, ...); %d specs where the operator annihilates the state: canonicalise/compress of the zero vector skipped" % (n_qn2, n_zero))
+    ctx.notes.append("oracle: operator objects (TTNO, partial TTNO, TTNO.dummy) reused across states on different basis trees in both orders, results vs dense and vs the first call: %d specs, %d with a state on the tree with auxiliary DoFs, %d with a state on the operator's own sub-tree; RDMs re-checked after in-place normalize/scale on every spec"
+                     % (hist.get("specs", 0), hist.get("with_aux", 0), hist.get("with_sub", 0)))
     ctx.notes.append("oracle: %d comparisons on %d specs (%d skipped: random state not constructible), %d failures; "
                      "%d logged svd_qn factorisations inside canonicalise/compress checked against the witness contract M = Q.V^T"
                      % (or_checked, or_specs, or_skipped, len(or_fail), n_contract))
